@@ -215,6 +215,18 @@ def cases(ctx):
                                              rng.randrange(2), rng.randrange(128)])
                 yield "tc19", {"msgs": msgs}
             i += 1
+    # boundary values of THREE fields at once: both velocity components and the vertical rate at their "not available" (0),
+    # zero (1), first non-zero (2) and maximum codes, every sign, every subtype
+    if ctx.mine(i):
+        msgs = []
+        for st in (1, 2, 3, 4):
+            for a in (0, 1, 2, 1023):
+                for b in (0, 1, 2, 1023):
+                    for vr in (0, 1, 2, 511):
+                        for sg in range(8):
+                            msgs.append([st, sg & 1, a, (sg >> 1) & 1, b, rng.randrange(2), (sg >> 2) & 1, vr, rng.randrange(2), rng.choice((0, 1, 2, 127))])
+        yield "tc19", {"msgs": msgs}
+    i += 1
     # every velocity vector whose speed is an exact integer (Pythagorean pairs): int() of a result that is off by one ulp
     # shows there and nowhere else; both orders, all signs, subsonic and supersonic
     import math as _m
